@@ -170,6 +170,12 @@ SET_OF_decode_oer(const asn_codec_ctx_t *opt_codec_ctx,
 
         ASN_DEBUG("OER SET OF %s Decoding PHASE 1", td->name);
 
+        if(!elm->type->op->oer_decoder) {
+            ASN_DEBUG("OER decoder is not defined for type %s",
+                      elm->type->name);
+            RETURN(RC_FAIL);
+        }
+
         for(; ctx->left > 0; ctx->left--) {
             asn_dec_rval_t rv = elm->type->op->oer_decoder(
                 opt_codec_ctx, elm->type,
